@@ -25,6 +25,8 @@ def cases(tier, seed):
                     out.append(dict(kind="grad", module="linear", dtype=dt, qtype=q, act=a, xshape=shape))
                 out.append(dict(kind="grad", module="conv", dtype=dt, qtype=q, act=a, xshape=[1, 1, 2, 3]))
             out.append(dict(kind="stale", module="linear", dtype=dt, qtype=q))
+            if tier == "quick" and q in ("qint8", "qfloat8_e4m3fn"):
+                out.append(dict(kind="grad", module="linear", dtype="float16", qtype=q, act=None, xshape=[2, 3]))
             if tier == "thorough":
                 out.append(dict(kind="stale", module="conv", dtype=dt, qtype=q))
     return out
@@ -83,6 +85,28 @@ def grads_pair(model, x, gO, read):
     return out, probs
 
 
+def grad_mags(model, x, gO):
+    """per-element magnitude of the float twin's gradient contractions (sum of absolute products), in float64"""
+    import torch.nn.functional as F
+
+    from optimum.quanto import quantize_activation
+
+    qm = model[0]
+    wdq = qm.qweight.dequantize().detach().double().abs().requires_grad_(True)
+    b2 = qm.bias.detach().double().abs().requires_grad_(True) if qm.bias is not None else None
+    if qm.activation_qtype is not None:
+        x2 = quantize_activation(x.detach(), qm.activation_qtype, qm.input_scale).dequantize().detach()
+    else:
+        x2 = x.detach()
+    x2 = x2.double().abs().requires_grad_(True)
+    if isinstance(qm, torch.nn.Linear):
+        yr = F.linear(x2, wdq, b2)
+    else:
+        yr = F.conv2d(x2, wdq, b2, qm.stride, qm.padding, qm.dilation, qm.groups)
+    yr.backward(gO.double().abs())
+    return dict(x=x2.grad, weight=wdq.grad, bias=b2.grad if b2 is not None else None)
+
+
 def frozen_problems(model, x, gO):
     from optimum.quanto import freeze
     from optimum.quanto.tensor import QTensor
@@ -130,6 +154,70 @@ def stale_scenario(module, dt, qtype, style, x, new_w, read):
     return read(d(y1)), read(d(yf)), read(d(y0))
 
 
+def _bit_tolerance(res, ctx, k, A, B, QD, QS, X, G, P, enc, dt, case, x, oshape, model):
+    """terms differ but may be equal up to rounding: decide bit-exactly (float16) whether the gradient can leave the float
+    twin's by more than accumulation rounding.  Weight codes and scales are cut to free variables (any code, any positive
+    scale); all operands positive, so there is no cancellation and a relative bound plus 4 subnormal steps is the standard
+    error model of the twin's own contraction."""
+    import z3
+
+    from symt import api, bit
+    from symt import terms as tm
+
+    nodes = list(QD.reshape(-1)) + list(QS.reshape(-1))
+    roots = list(A.reshape(-1)) + list(B.reshape(-1))
+    cutr, cmap, _ = api.cut(ctx, roots, nodes, "qw")
+    n = len(roots) // 2
+    b = bit.Bit(ctx)
+    f32 = z3.FPSort(8, 24)
+    up = lambda e: z3.fpToFP(z3.RNE(), e, f32)  # noqa
+    fin = lambda e: z3.Not(z3.Or(z3.fpIsNaN(e), z3.fpIsInf(e)))  # noqa
+    eta = 2.0**-24
+    bad = []
+    for a_, b_ in zip(cutr[:n], cutr[n:]):
+        if a_ is b_:
+            continue
+        az, bz = up(b.tr(a_)), up(b.tr(b_))
+        tol = z3.fpAdd(z3.RNE(), z3.fpMul(z3.RNE(), z3.FPVal(2.0**-6, f32), z3.fpAbs(bz)), z3.FPVal(4 * eta, f32))
+        bad.append(z3.And(fin(bz), z3.Or(z3.Not(fin(az)), z3.fpGT(z3.fpAbs(z3.fpSub(z3.RNE(), az, bz)), tol))))
+    pre = []
+    qmax = {"qint8": 127.0, "qfloat8_e4m3fn": 448.0, "qfloat8_e5m2": 57344.0}[case["qtype"]]
+    rows = QD.shape[0]
+    for idx, t in np_ndenumerate(QD):
+        cz = b.tr(cmap[t.uid])
+        if z3.is_fp(cz):
+            pre += [fin(cz), z3.fpGT(cz, z3.FPVal(0, cz.sort()))] + ([z3.fpEQ(cz, z3.FPVal(qmax, cz.sort()))] if idx[-1] == 0 else [])
+        else:
+            pre += [cz > 0] + ([cz == int(qmax)] if idx[-1] == 0 else [])
+    for t in QS.reshape(-1):
+        sz = b.tr(cmap[t.uid])
+        pre += [z3.fpGT(sz, z3.FPVal(2.0**-14, sz.sort())), z3.fpLT(sz, z3.FPVal(1.0, sz.sort()))]
+    free = [t for arr in (X, G, P.get("0.bias")) if arr is not None for t in arr.reshape(-1)]
+    for t in free:
+        vz = b.vars.get(t.args[0])
+        if vz is not None:
+            pre += [fin(vz), z3.fpGT(vz, z3.FPVal(0, vz.sort()))]
+    v, secs, mdl = api.solve(list(b.side) + pre + [z3.Or(*bad)], 240)
+    res.query(f"{k}.grad-within-rounding-of-float-twin", "BIT", v, secs, sub="weight codes and scales cut to free variables; positive operands")
+    if v == "sat":
+        codes = api.model_values(b, mdl, [cmap[t.uid] for t in QD.reshape(-1)])
+        scales = api.model_values(b, mdl, [cmap[t.uid] for t in QS.reshape(-1)])
+        w = (torch.tensor([float(c_) for c_ in codes], dtype=torch.float64).reshape(QD.shape) * torch.tensor([float(s_) for s_ in scales], dtype=torch.float64).reshape(QS.shape)).to(dt)
+        e2 = dict(enc)
+        e2["w"] = api.enc_tensor(w)
+        e2["x"] = api.enc_tensor(api.tensor_from_values(api.model_values(b, mdl, X), tuple(x.shape), dt))
+        e2["g"] = api.enc_tensor(api.tensor_from_values(api.model_values(b, mdl, G), oshape, dt))
+        if P.get("0.bias") is not None:
+            e2["b"] = api.enc_tensor(api.tensor_from_values(api.model_values(b, mdl, P["0.bias"]), tuple(model[0].bias.shape), dt))
+        res.candidate("grad-rounding", "BIT", e2)
+
+
+def np_ndenumerate(arr):
+    import numpy as np
+
+    return list(np.ndenumerate(arr))
+
+
 def run_case(case, res):
     import numpy as np
     import z3
@@ -150,6 +238,8 @@ def run_case(case, res):
             X, G = m.symbolic(x, "x"), m.symbolic(gO, "g")
             P = models.symbolic_params(m, model)
             pairs, probs = grads_pair(model, x, gO, m.read)
+            qw_ = model[0].qweight
+            QD, QS = (m.read(qw_._data), m.read(qw_._scale)) if bits == 8 else (None, None)
         ctx = m.ctx
         res.side_ok("gradient-presence-and-shape", not probs, "; ".join(probs))
         enc = dict(kind="grad", module=case["module"], dtype=case["dtype"], qtype=case["qtype"], act=case["act"], x=api.enc_tensor(x), g=api.enc_tensor(gO), w=api.enc_tensor(model[0].weight.data), b=api.enc_tensor(model[0].bias.data))
@@ -181,6 +271,8 @@ def run_case(case, res):
                 except NotImplementedError as e:  # noqa
                     res.notes.append(f"ideal query not expressible: {e}")
                 res.candidate("grad", "ALG", enc, note=f"{k}.grad terms differ from the float twin's (seed as witness)")
+                if dt == torch.float16 and bits == 8 and case["act"] is None and case["module"] == "linear":
+                    _bit_tolerance(res, ctx, k, A, B, QD, QS, X, G, P, enc, dt, case, x, oshape, model)
         # frozen weights and scales receive no gradient
         fm = build(case["module"], dt, case["qtype"], case["act"])
         fp = frozen_problems(fm, x, gO)
@@ -249,9 +341,14 @@ def replay(rec):
             key = ["C11/frozen-weight-receives-gradient"] if fp and all(p == "frozen weight received a gradient" for p in fp) else None
             return bool(fp), "; ".join(fp) or "frozen ok", key
         pairs, probs = grads_pair(model, x, g, lambda t: t.detach().clone())
+        mags = grad_mags(model, x, g)
         for k, (a, b) in pairs.items():
             tol = 1e-5 if dt == torch.float32 else 2e-2
-            if not torch.allclose(a.double(), b.double(), rtol=tol, atol=tol * (1e-3 + float(b.abs().max()))):
+            # per element: a fraction of the contraction's magnitude (sum of absolute products) plus four subnormal steps
+            eta = 2.0**-149 if dt == torch.float32 else (2.0**-24 if dt == torch.float16 else 2.0**-133)
+            lim = tol * mags[k].reshape(b.shape) + 4 * eta
+            fine = torch.isfinite(b.double())
+            if bool((((a.double() - b.double()).abs() > lim) & fine).any()) or bool((~torch.isfinite(a.double()) & fine).any()):
                 probs.append(f"{k}.grad = {a.tolist()} but the float twin gives {b.tolist()}")
         return bool(probs), "\n".join(probs[:4]) or "gradients match", None
     if inp["kind"] == "stale":
